@@ -38,6 +38,13 @@ ENGINES = [
          serves_properties=["C01", "C04", "C07", "C08", "C11", "C14"],
          kind_free_text="implementation-shaped spec of the SQLite processors and trees (frontier cache, rollback callbacks, never-cleaned node table); "
                         "TLC exhaustive; edge-cover behaviours replayed into the real processors with SQL-trigger fault injection; named snapshots judged by TLC"),
+    dict(name="evmsync", path="specs/EVMSync.tla specs/EVMSyncTrace.tla harness/areas/evmsync checks/evmsync_common.py checks/C05.py checks/C06.py checks/regress/C06_F6.json",
+         serves_properties=["C05", "C06"],
+         kind_free_text="implementation-shaped spec of the downloader's cursor/zone arithmetic, downloadedCh, driver, tracked lists (memory + SQLite) and the "
+                        "detector loop (tick / compare / notify / ack / remove as separate steps) over a chain with forks, finality, restarts and RPC failures; "
+                        "TLC exhaustive; edge-cover sample + seeded tlc -simulate walks replayed into the REAL EVMDownloader + EVMDriver + ReorgDetector behind "
+                        "gated fake-chain clients (every RPC, driver call and channel hand-over is a scheduler-released gate), recording store and real L1 info "
+                        "store; TLC trace validation"),
     dict(name="epoch", path="specs/Epoch.tla specs/EpochTrace.tla specs/PollEpoch.tla specs/PollEpochTrace.tla harness/areas/epoch harness/areas/pollepoch checks/C18.py", serves_properties=["C18"],
          kind_free_text="TLC exhaustive on the step-function spec; edge-cover behaviours replayed into the real notifier; TLC trace validation"),
 ]
@@ -197,6 +204,26 @@ CHECKS = {
              "facade (enumerated by reflection, small allow list of non-data methods) is called after every step: while the node has reported an "
              "inconsistency every data method must answer the inconsistency error, no block may commit, and only a reorg that removes processed "
              "blocks clears the condition."),
+    "C05": dict(engine="evmsync", category="model_checking", design_ref="DESIGN.md section 5 C05",
+        text="TLC checks the Download loop as coded (from/to/lastBlock, safe vs unsafe zone, range extension, empty-block marker, hash cross-check, "
+             "bounded channel) with driver and store against Ordered / Faithful / NoSkip / Converged for every placement of watched logs on <= 6 (quick) "
+             "/ 7 (thorough) blocks, chunk 1..3, both finality modes, every tip/finalized schedule and any number of failing RPCs / ProcessBlock calls; a "
+             "seeded sample of the edge cover plus seeded random walks (<= 16 blocks, chunk <= 10, restarts) is replayed gate by gate into the real "
+             "downloader + driver + reorg detector (blocks decorated with several logs, unwatched topics, other addresses, removed logs), with a recording "
+             "store and a second pass with the real L1 info store; TLC judges every trace with EVMSyncTrace.tla.",
+        note="trusted: TLC; fake chain answers eth_getLogs atomically; environment moves placed right before their observer (hand-made POR); the driver's "
+             "select is scheduled by relays at the Downloader/ReorgDetector interfaces; marker liveness (empty-block marker advancing) is not demanded by the statement",
+        technique="TLA+ model checking (TLC) + behaviour replay into real goroutines through gates + TLC trace validation"),
+    "C06": dict(engine="evmsync", category="model_checking", design_ref="DESIGN.md section 5 C06",
+        text="TLC checks the same spec with forks (any fork point above the finalized block, any content, <= 2 successive), the detector loop in five steps, "
+             "tracked lists in memory and SQLite, and restart at any step against the same predicates plus RewindLow (at rest no replaced block is stored); the "
+             "faithful model (range removal as its own step) violates RewindLow (finding F6) and a scaled retry limit violates Faithful (finding F7) - both "
+             "counterexamples are replayed on the real code in every run. Edge cover + seeded walks (<= 12 blocks, <= 5 forks of processed blocks, restarts, RPC "
+             "failures) are replayed into the real downloader + driver + ReorgDetector (own SQLite file), recording store and real L1 info store; TLC judges "
+             "Ordered, Faithful, NoSkip, NoSpurious, RewindLow, Converged and the findings' signatures.",
+        note="trusted: TLC; a fork wins only when longer; explored schedules remove the tracked range right after the ack (AtomicRemove) and have < 6 forks per "
+             "range query; Start-then-Subscribe order fixed; RewindLow judged at rest; DRIFT possible under extreme machine load (gate wait 2 s), reported, never a verdict",
+        technique="TLA+ model checking (TLC) + behaviour replay into real goroutines through gates + TLC trace validation"),
     "C18": dict(
         engine="epoch", category="model_checking", design_ref="DESIGN.md section 5 C18",
         text="TLC checks the step function as coded (Epoch.tla) against exactly-once-at-first-past-block for every configuration "
